@@ -327,9 +327,14 @@ PROPS = {
                   "panic, caller's buffer unchanged, input in a poisoned cap==len buffer, identical result with spare capacity or "
                   "other octets behind the framed message, splitter tokens are prefixes of the data and a bufio.Scanner over them "
                   "terminates. Native fuzz targets share the decode oracle."),
-        "note": ("The records the running daemon emits (BMP route monitoring / peer up, MRT dumps) are not produced by this "
-                 "check; embedded BGP messages come from the C04 generators. Zebra bodies whose request and reply layouts differ by "
-                 "protocol design are compared at header level only."),
+        "note": ("Daemon-emitted MRT (TestVerifC19_daemon_mrt): in virtual time generated peers (2-/4-octet AS sessions, with and "
+                 "without ADD-PATH receive) and the API add IPv4/IPv6 routes to a running BgpServer; EnableMrt(TABLE) and "
+                 "EnableMrt(UPDATES) files are read back with SplitMrt/ParseHeader/ParseBody and compared with the sources "
+                 "(PEER_INDEX_TABLE address, router id, AS), with ListPath of the Loc-RIB (both directions: every RIB entry is a "
+                 "Loc-RIB path with equal path id and attributes, no Loc-RIB path missing) and with the UPDATE octets the peers sent "
+                 "(BGP4MP peer/local AS, address, payload re-parsed under the sub-type's AS4/ADD-PATH meaning). Embedded BGP "
+                 "messages of the codec units come from the C04 generators. Zebra bodies whose request and reply layouts differ by "
+                 "protocol design are compared at header level only. Daemon-emitted BMP is not covered (see DESIGN 9.2)."),
         "technique": "property-based testing (rapid) with recipe generators: codec round trip + decode-safety oracles on guarded buffers; coverage-guided native fuzzing (thorough tier) with the same oracle",
         "rule": ("non-trivial when a body decoder is reached (header parses, declared body present) or the constructed message embeds a "
                  "BGP message / has at least two entries; distinct by case hash"),
@@ -340,6 +345,7 @@ PROPS = {
             {"pkg": "pkg/packet/rtr", "test": "TestVerifC19_rtr", "quick": (4, 10000), "thorough": (16, 1000000)},
             {"pkg": "pkg/zebra", "test": "TestVerifC19_zebra", "quick": (8, 3000), "thorough": (16, 300000)},
             {"pkg": "pkg/packet/bfd", "test": "TestVerifC19_bfd", "quick": (4, 10000), "thorough": (16, 1000000)},
+            {"pkg": S, "test": "TestVerifC19_daemon_mrt", "quick": (4, 250), "thorough": (16, 20000)},
             {"pkg": "pkg/packet/mrt", "kind": "fuzz", "test": "FuzzVerifC19_mrt", "fuzz_seconds": 240},
             {"pkg": "pkg/packet/bmp", "kind": "fuzz", "test": "FuzzVerifC19_bmp", "fuzz_seconds": 240},
             {"pkg": "pkg/packet/rtr", "kind": "fuzz", "test": "FuzzVerifC19_rtr", "fuzz_seconds": 120},
